@@ -60,6 +60,12 @@ func (fg *FG) run() (err error) {
 		v := Val{T: n, Ty: p.Type()}
 		fg.vals[p] = v
 		fg.params[pname] = v
+		if i < len(c.Params) && len(c.Params) == len(fn.Params) && c.Params[i] != "_" && c.Params[i] != pname {
+			// the contract's own (positional) name for the parameter is an alias of the source name
+			if _, clash := fg.params[c.Params[i]]; !clash {
+				fg.params[c.Params[i]] = v
+			}
+		}
 		fg.assumeTyped(v, st)
 	}
 	for _, f := range fn.FreeVars {
@@ -1147,6 +1153,16 @@ func (fg *FG) localResolverAt(at *ssa.BasicBlock, h *ssa.BasicBlock, st *State) 
 				best, bestBlock, bestIdx, bestAddr = v, blk, idx, isAddr
 			}
 		}
+		// a variable that lives in a cell (captured by a closure, or its address taken) is read from
+		// the cell: the value debug references of its assignments go stale with the next assignment
+		cellOf := map[token.Pos]*ssa.Alloc{}
+		for _, b := range fg.fn.Blocks {
+			for _, in := range b.Instrs {
+				if a, ok := in.(*ssa.Alloc); ok && a.Comment == name && a.Pos().IsValid() {
+					cellOf[a.Pos()] = a
+				}
+			}
+		}
 		for _, b := range fg.fn.Blocks {
 			for i, in := range b.Instrs {
 				switch x := in.(type) {
@@ -1155,6 +1171,12 @@ func (fg *FG) localResolverAt(at *ssa.BasicBlock, h *ssa.BasicBlock, st *State) 
 						consider(x, b, i, false)
 					}
 				case *ssa.DebugRef:
+					if x.Object() != nil && x.Object().Name() == name && !x.IsAddr {
+						if a := cellOf[x.Object().Pos()]; a != nil {
+							consider(a, b, i, true)
+							continue
+						}
+					}
 					if id, ok := x.Expr.(interface{ String() string }); ok {
 						_ = id
 					}
